@@ -139,7 +139,7 @@ class PubSubRun:
                 a.send(C.MT_SUBSCRIBE, C.pack_sub(self.pick_type("con.earlyt")), src=0)
             self.res.probes["pre_handshake_frames"] += 1
             self.t(f"{a.name} subscribes before connecting")
-        a.host_id = ch.weighted("con.host", [(6, 0), (1, 1), (1, 5)])
+        a.host_id = ch.weighted("con.host", [(8, 0), (1, 1), (1, 5), (1, 7), (1, -1), (1, 32767)])
         a.handshake(proto, req_id=rid, logger=logger, allow_multiple=multi, name=nm,
                     pid=5000 + len(self.actors))
         self.t(f"{a.name} connect proto={proto} id={rid} logger={logger} multi={multi} name={nm!r}")
